@@ -415,8 +415,17 @@ func runC06(c *Ctx) {
 				if okk != ok0 {
 					what = fmt.Sprintf("one layout is accepted and the other rejected (canonical ok=%v err=%q; layout ok=%v err=%q)", ok0, res.Err, okk, rk.Err)
 				}
-				c.Violate("layout", what+" ["+p.Name+"]",
-					map[string]any{"program": p.Name, "canonical_src": cs.Canon, "layout_src": src, "canonical_err": res.Err, "layout_err": rk.Err}, false)
+				rep := map[string]any{"program": p.Name, "canonical_src": cs.Canon, "layout_src": src, "canonical_err": res.Err, "layout_err": rk.Err}
+				if ok0 && !okk && cs.Tree != "" {
+					if t := h.modelTree(src, cs.Intern); t == "REJECT" {
+						// fc and the model parser agree that this is not a layout of the program: the layout generator left
+						// the validity predicate of the model (a defect of the harness, reported loudly, not a finding about fc)
+						rep["model"] = "REJECT"
+						c.Violate("layout-invalid-for-model", "the layout generator produced a layout that the model parser rejects as well as fc ("+rk.Err+"): harness defect unless both are wrong ["+p.Name+"]", rep, true)
+						continue
+					}
+				}
+				c.Violate("layout", what+" ["+p.Name+"]", rep, false)
 				continue
 			}
 			if k < 2 {
@@ -856,8 +865,10 @@ func c06Replay(c *Ctx, h *c06Run) {
 		o1, ok1 := c06Out(r1)
 		c.Eval(str("layout_src"), true)
 		t0, t1 := h.modelTree(str("canonical_src"), intern), h.modelTree(str("layout_src"), intern)
-		c.Note("replay: canonical ok=%v err=%q; layout ok=%v err=%q; same output=%v; model trees equal=%v", ok0, r0.Err, ok1, r1.Err, o0 == o1, t0 == t1)
-		if ok0 != ok1 || o0 != o1 {
+		c.Note("replay: canonical ok=%v err=%q; layout ok=%v err=%q; same output=%v; model trees equal=%v; model on the layout: %s", ok0, r0.Err, ok1, r1.Err, o0 == o1, t0 == t1, c06Brief(t1))
+		if ok0 && !ok1 && strings.HasPrefix(t0, "TREE ") && t1 == "REJECT" {
+			c.Violate("layout-invalid-for-model", "replay: fc and the model parser both reject the recorded layout ("+r1.Err+"): it is not a layout of the program under the model's validity predicate (a layout-generator defect at the time of recording), not a finding about fc", doc.Replay, true)
+		} else if ok0 != ok1 || o0 != o1 {
 			c.Violate("layout", "replay: the two layouts still differ", doc.Replay, false)
 		}
 	case str("valid_src") != "" && str("dedented_src") != "":
